@@ -1,4 +1,5 @@
 import MevCommit.Basic
+import MevCommit.Extracted
 /-
 C09 — model of the receipt monitor (pkg/evmclient/txmonitor.go) and of the client's pending
 list (pkg/evmclient/evmclient.go:224-253, waitForTxn).
@@ -135,5 +136,19 @@ def run : St → List Op → List Out
 def final : St → List Op → St
   | s, [] => s
   | s, op :: ops => final (step s op).1 ops
+
+/-- `check`'s loop: `for start := 0; start < len; start += batchSize { end := min(start+batchSize, len);
+one batch call for txHashes[start:end]; for i := range batch { tHash := txHashes[start+i] ... } }`.
+The list returned is the sequence of hashes the results are attributed to, in processing order.
+`fuel` bounds the number of batches. -/
+def checkOrder (bs : Nat) (l : List α) (start fuel : Nat) : List α :=
+  match fuel with
+  | 0 => []
+  | fuel + 1 =>
+    if start < l.length then
+      let e := min (start + bs) l.length
+      (List.range (e - start)).filterMap (fun i => l[start + i]?) ++ checkOrder bs l e fuel
+    else []
+
 
 end MevCommit.Monitor
